@@ -84,6 +84,7 @@ func checkC12(p *Prog, r *Report) {
 	c12Membership(p, r, or)
 	c12Reencode(p, r, or, "C12.reencode")
 	c12IsSelect(p, r, or)
+	c12MetadataBeforeReply(p, r, "C12.metadata-before-reply")
 	// the re-encoded request is produced by the partial codecs: their layout per version is part of this property
 	codecLayouts(p, r, "C12")
 }
@@ -319,6 +320,20 @@ func c12Reencode(p *Prog, r *Report, or *overrideRoles, rule string) {
 			cm := c.Common()
 			if !cm.IsInvoke() || cm.Method.Name() != "ConvertToRawFrame" {
 				return
+			}
+			// the converting codec is the connection's own (the one the body was decoded with: it
+			// carries the compressor the frame's flags demand); any other codec fails on compressed
+			// frames and the request goes out unmodified
+			okCodec := false
+			for _, o := range origins(cm.Value) {
+				if f, _ := loadedField(o); f != nil && f.Name() == "codec" && namedOf(f.Type()) != nil {
+					okCodec = true
+				} else if f != nil && f == p.FieldOpt("proxy", p.proxyClientType().Obj().Name(), "codec") {
+					okCodec = true
+				}
+			}
+			if !okCodec {
+				bad = append(bad, p.Pos(c.Pos())+": the frame is converted with a codec other than the client connection's own ("+valDesc(cm.Value)+"): a frame whose flags ask for that connection's compression cannot be converted and is forwarded unmodified")
 			}
 			okHdr, okBody := false, false
 			for _, o := range origins(cm.Args[0]) {
@@ -581,4 +596,110 @@ func c12CheckIsSelectLookup(p *Prog, fn *ssa.Function) []string {
 		}
 	})
 	return bad
+}
+
+// c12MetadataBeforeReply: what the proxy learns from a PREPARED result (is the statement a
+// SELECT, is it idempotent) is stored before that result is written to the client: once the
+// client has the id it may EXECUTE it at once, and an EXECUTE without metadata is treated as a
+// write (its consistency is overridden) and as non-idempotent.
+func c12MetadataBeforeReply(p *Prog, r *Report, rule string) {
+	r.Rule(rule, "on the delivery path of a backend reply the prepared-statement metadata (isSelect, idempotent) is stored before the reply is written to the client, so an EXECUTE sent right after PREPARED already finds it")
+	req := p.proxyRequestType()
+	onRes := p.methodOf(req, "OnResult")
+	pmF := p.Field("proxy", "Proxy", "preparedMetadata")
+	// functions that (transitively, within proxy) store into Proxy.preparedMetadata
+	stores := func(fn *ssa.Function) bool {
+		found := false
+		for _, f := range withCallees(p, fn, 2) {
+			eachCall(f, func(c ssa.CallInstruction) {
+				if callIsMethod(c, "sync", "Map", "Store") {
+					if fa, ok := c.Common().Args[0].(*ssa.FieldAddr); ok && fieldOfAddr(fa) == pmF {
+						found = true
+					}
+				}
+			})
+		}
+		return found
+	}
+	reply := replyFuncs(p, req)
+	// the delivery path: OnResult and the request's own helpers it is split into (the error
+	// handler and the host walk answer with their own messages, not with the backend's reply)
+	rr := requestRoles(p)
+	onPath := map[*ssa.Function]bool{}
+	var walk func(f *ssa.Function, d int)
+	walk = func(f *ssa.Function, d int) {
+		if onPath[f] || d > 3 || f == rr.handleErr || f == rr.execLoop {
+			return
+		}
+		onPath[f] = true
+		eachCall(f, func(c ssa.CallInstruction) {
+			if callee := c.Common().StaticCallee(); callee != nil && recvNamed(callee) == req && !reply[callee] {
+				walk(callee, d+1)
+			}
+		})
+	}
+	walk(onRes, 0)
+	isStore := func(c ssa.CallInstruction) bool {
+		callee := c.Common().StaticCallee()
+		return callee != nil && !reply[callee] && !onPath[callee] && callee.Pkg == onRes.Pkg && stores(callee)
+	}
+	before := func(a, b ssa.CallInstruction) bool {
+		if a.Block() == b.Block() {
+			for _, in := range a.Block().Instrs {
+				if in == a.(ssa.Instruction) {
+					return true
+				}
+				if in == b.(ssa.Instruction) {
+					return false
+				}
+			}
+		}
+		return a.Block().Dominates(b.Block())
+	}
+	var storedBefore func(site ssa.CallInstruction, d int) bool
+	storedBefore = func(site ssa.CallInstruction, d int) bool {
+		f := site.Parent()
+		found := false
+		eachCall(f, func(c ssa.CallInstruction) {
+			if isStore(c) && before(c, site) {
+				found = true
+			}
+		})
+		if found || f == onRes || d == 0 {
+			return found
+		}
+		sites, only := p.staticCallSites(f)
+		if !only || len(sites) == 0 {
+			return false
+		}
+		for _, cs := range sites {
+			if !onPath[cs.Parent()] || !storedBefore(cs, d-1) {
+				return false
+			}
+		}
+		return true
+	}
+	var replyCalls []ssa.CallInstruction
+	nstore := 0
+	for f := range onPath {
+		eachCall(f, func(c ssa.CallInstruction) {
+			if callee := c.Common().StaticCallee(); callee != nil && reply[callee] {
+				replyCalls = append(replyCalls, c)
+			}
+			if isStore(c) {
+				nstore++
+			}
+		})
+	}
+	var bad []string
+	if nstore == 0 {
+		bad = append(bad, "the delivery path does not store prepared-statement metadata at all")
+	}
+	for _, rc := range replyCalls {
+		if nstore > 0 && !storedBefore(rc, 3) {
+			bad = append(bad, p.Pos(rc.Pos())+": the backend's reply is written to the client before the prepared-statement metadata is stored: an EXECUTE of the new id can arrive first and is then handled as a non-SELECT, non-idempotent request")
+		}
+	}
+	storeCalls := make([]int, nstore)
+	r.check(len(bad) == 0 && len(replyCalls) > 0, rule, req.Obj().Name()+".OnResult", p.Pos(onRes.Pos()), fmt.Sprintf("%d reply site(s), %d store site(s)", len(replyCalls), len(storeCalls)), strings.Join(dedupe(bad), " || "))
 }
